@@ -14,6 +14,7 @@ use vh_core::engine::{no_panic, Obs, PropSpec, Rel, Tape, Tier, R};
 use vh_core::{ensure, ensure_eq};
 
 mod hv;
+mod io;
 use hv::*;
 
 // ---------------------------------------------------------------------------------------
@@ -141,6 +142,7 @@ fn stats(o: &mut Obs, g: &Gen<'_, '_>) {
     o.class_if(g.max_depth >= 4, "value-depth>=4");
     o.class_if(g.max_len >= 2, "container-len>=2");
     o.class_if(g.max_len >= 10_000, "container-len>=10^4");
+    o.class_if(g.max_len >= 100_000, "container-len>=10^5");
     o.class_if(g.n_empty > 0, "has-empty-container");
     o.class_if(g.n_wrapped > 0, "has-wrapped-vecdeque");
     o.class_if(g.n_points > 0, "has-curve-point");
@@ -156,6 +158,7 @@ fn roundtrip<T: Hv>(name: &'static str, t: &mut Tape<'_>, o: &mut Obs, large: bo
     o.class_if(T::POINTS, "type-with-curve-points");
     let v = T::gen(&mut g);
     let tail = g.t.idx(4);
+    let pw = g.t.u64();
     stats(o, &g);
     o.nt(g.max_depth >= 2 || g.max_len >= 2);
     let (depth, len) = (g.max_depth, g.max_len);
@@ -220,6 +223,118 @@ fn roundtrip<T: Hv>(name: &'static str, t: &mut Tape<'_>, o: &mut Obs, large: bo
     ensure!(matches!(T::deserialize_uncompressed(&bu[..]), Ok(w) if w == v), "deserialize_uncompressed", "{}: {}", name, short(&v));
     ensure!(matches!(T::deserialize_uncompressed_unchecked(&bu[..]), Ok(w) if w == v), "deserialize_uncompressed_unchecked", "{}: {}", name, short(&v));
 
+    // the same value through other `Write` / `Read` implementations: a fixed buffer of exactly the advertised size, a
+    // writer that accepts and a reader that delivers only a few bytes per call (pipe / socket semantics)
+    let pat = io::pattern(pw);
+    o.class_if(pw & 0xfff != 0, "io-pattern-mixed-chunks");
+    for (c, bytes) in [(Compress::Yes, &bc), (Compress::No, &bu)] {
+        let size = v.serialized_size(c);
+        let mut buf = vec![0xA5u8; size];
+        {
+            let mut w: &mut [u8] = &mut buf[..];
+            let r = no_panic("serialize.exact-buffer", || v.serialize_with_mode(&mut w, c))?;
+            ensure!(r.is_ok(), format!("io.exact-buffer.{}", cname(c)), "{}: serializing into a buffer of serialized_size({}) = {} bytes failed: {:?}; value {}", name, cname(c), size, r.err().map(|e| e.to_string()), short(&v));
+            ensure!(w.is_empty(), format!("io.exact-buffer.left.{}", cname(c)), "{}: {} of the advertised {} bytes were not written", name, w.len(), size);
+        }
+        ensure!(&buf == bytes, format!("io.exact-buffer.bytes.{}", cname(c)), "{}: a fixed buffer received {}, a Vec {}", name, hexs(&buf), hexs(bytes));
+        let mut dw = io::DribbleW::new(pat);
+        let r = no_panic("serialize.partial-writer", || v.serialize_with_mode(&mut dw, c))?;
+        ensure!(r.is_ok() && &dw.out == bytes, format!("io.partial-writer.{}", cname(c)), "{}: a writer accepting {:?} bytes per call received {} ({:?}), a Vec {}", name, pat, hexs(&dw.out), r.err().map(|e| e.to_string()), hexs(bytes));
+        let mut input = bytes.clone();
+        input.extend_from_slice(&[0x5A; 3]);
+        let mut rd = io::Dribble::new(&input, pat);
+        let r = no_panic("deserialize.partial-reader", || T::deserialize_with_mode(&mut rd, c, Validate::Yes))?;
+        ensure!(matches!(&r, Ok(w) if *w == v), format!("io.partial-reader.{}", cname(c)), "{}: {} delivered {:?} bytes per call gives {:?}, expected {}", name, hexs(bytes), pat, r.map(|x| short(&x)).map_err(|e| e.to_string()), short(&v));
+        ensure!(rd.pos == bytes.len(), format!("io.partial-reader.consumed.{}", cname(c)), "{}: {} bytes consumed of a {}-byte encoding", name, rd.pos, bytes.len());
+    }
+    // "CanonicalSerialize induces a natural way to hash the corresponding value": the digest of the serialization
+    {
+        use ark_serialize::CanonicalSerializeHashExt;
+        use sha2::{Digest, Sha256, Sha512};
+        let h = no_panic("hash", || v.hash::<Sha256>())?;
+        ensure!(h[..] == Sha256::digest(&bc)[..], "hash.compressed", "{}: hash::<Sha256>() is not the digest of the compressed serialization of {}", name, short(&v));
+        let h = no_panic("hash_uncompressed", || v.hash_uncompressed::<Sha512>())?;
+        ensure!(h[..] == Sha512::digest(&bu)[..], "hash.uncompressed", "{}: hash_uncompressed::<Sha512>() is not the digest of the uncompressed serialization of {}", name, short(&v));
+    }
+    Ok(())
+}
+
+/// One container of exactly `n` scalar elements (body expanded from one tape word): size, round trip in the four modes,
+/// exact consumption. (The full battery of `roundtrip` would make ~40 passes over a megabyte.)
+fn cap_rt<T: Hv>(name: &'static str, t: &mut Tape<'_>, o: &mut Obs, n: usize) -> R {
+    let mut g = Gen::new(t, 160);
+    g.allow_large = true;
+    g.large_n = Some(n);
+    let v = T::gen(&mut g);
+    let tail = g.t.idx(4);
+    stats(o, &g);
+    o.nt(g.max_len >= 100_000);
+    let len = g.max_len;
+    o.show(|| format!("{} with a container of {} elements (requested {})", name, len, n));
+    o.evals(6);
+    for c in [Compress::Yes, Compress::No] {
+        let bytes = ser(&v, c, "serialize")?;
+        let size = v.serialized_size(c);
+        ensure!(size == bytes.len(), format!("size.{}", cname(c)), "{}: serialized_size({}) = {} but {} bytes were written ({} elements)", name, cname(c), size, bytes.len(), len);
+        let mut input = bytes.clone();
+        input.extend(std::iter::repeat(0xA5u8).take(tail));
+        for val in [Validate::Yes, Validate::No] {
+            let (r, used) = de::<T>(&input, c, val)?;
+            match r {
+                Ok(w) => {
+                    ensure!(w == v, format!("roundtrip.{}.{}", cname(c), vname(val)), "{}: a container of {} elements reads back differently: {} expected {}", name, len, short(&w), short(&v));
+                    ensure!(used == bytes.len(), format!("consumed.{}", cname(c)), "{}: deserialization read {} bytes of a {}-byte encoding", name, used, bytes.len());
+                },
+                Err(e) => return vh_core::fail(format!("roundtrip.{}.{}.err", cname(c), vname(val)), format!("{}: deserialize(serialize(v)) failed with {} for a container of {} elements", name, e, len)),
+            }
+        }
+    }
+    Ok(())
+}
+
+/// slices: `[T]` and `&[T]` serialize like the `Vec<T>` with the same elements (which is how they are read back)
+fn slice_rt<T: Hv>(name: &'static str, t: &mut Tape<'_>, o: &mut Obs) -> R {
+    let mut g = Gen::new(t, 60);
+    let v = <Vec<T> as Hv>::gen(&mut g);
+    let (from, to) = {
+        let a = g.t.idx(v.len() + 1);
+        let b = g.t.idx(v.len() + 1);
+        (a.min(b), a.max(b))
+    };
+    stats(o, &g);
+    // a sub-slice that does not start at the beginning of the allocation, or the whole vector
+    let whole = g.t.chance(1, 3);
+    let sl: &[T] = if whole { &v[..] } else { &v[from..to] };
+    let want: Vec<T> = sl.to_vec();
+    o.class(if whole { "whole-slice" } else { "sub-slice" });
+    o.class_if(sl.is_empty(), "empty-slice");
+    o.nt(sl.len() >= 2);
+    o.show(|| format!("&[{}] = {}", name, short(&want)));
+    o.evals(12);
+    for c in [Compress::Yes, Compress::No] {
+        // the unsized `[T]` impl and the `&[T]` impl
+        let mut b1 = Vec::new();
+        let r1 = no_panic("serialize.slice", || <[T] as CanonicalSerialize>::serialize_with_mode(sl, &mut b1, c))?;
+        let mut b2 = Vec::new();
+        let r2 = no_panic("serialize.slice-ref", || <&[T] as CanonicalSerialize>::serialize_with_mode(&sl, &mut b2, c))?;
+        ensure!(r1.is_ok() && r2.is_ok(), "slice.serialize.err", "[{}]: {:?} {:?}", name, r1.err().map(|e| e.to_string()), r2.err().map(|e| e.to_string()));
+        let s1 = <[T] as CanonicalSerialize>::serialized_size(sl, c);
+        let s2 = <&[T] as CanonicalSerialize>::serialized_size(&sl, c);
+        ensure!(s1 == b1.len(), format!("slice.size.{}", cname(c)), "[{}]: serialized_size({}) = {} but {} bytes were written; {}", name, cname(c), s1, b1.len(), short(&want));
+        ensure!(s2 == b2.len(), format!("slice-ref.size.{}", cname(c)), "&[{}]: serialized_size({}) = {} but {} bytes were written; {}", name, cname(c), s2, b2.len(), short(&want));
+        for (what, b) in [("slice", &b1), ("slice-ref", &b2)] {
+            for val in [Validate::Yes, Validate::No] {
+                let (r, used) = de::<Vec<T>>(b, c, val)?;
+                ensure!(matches!(&r, Ok(w) if *w == want) && used == b.len(), format!("{}.roundtrip.{}.{}", what, cname(c), vname(val)), "[{}]: {} read back as Vec gives {:?} ({} of {} bytes read), expected {}", name, hexs(b), r.map(|x| short(&x)).map_err(|e| e.to_string()), used, b.len(), short(&want));
+            }
+        }
+        // compressed_size / uncompressed_size and the convenience writers on the unsized type
+        let mut b3 = Vec::new();
+        let (r3, adv) = if c == Compress::Yes { (sl.serialize_compressed(&mut b3), sl.compressed_size()) } else { (sl.serialize_uncompressed(&mut b3), sl.uncompressed_size()) };
+        ensure!(r3.is_ok() && b3.len() == adv, format!("slice.convenience.size.{}", cname(c)), "[{}]: serialize_{} wrote {} bytes, {}_size() = {}", name, cname(c), b3.len(), cname(c), adv);
+        let (r, _) = de::<Vec<T>>(&b3, c, Validate::No)?;
+        ensure!(matches!(&r, Ok(w) if *w == want), format!("slice.convenience.roundtrip.{}", cname(c)), "[{}]: serialize_{} of {} reads back differently", name, cname(c), short(&want));
+    }
     Ok(())
 }
 
@@ -260,6 +375,27 @@ fn pinned_rt<T: Hv>(name: &'static str, t: &mut Tape<'_>, o: &mut Obs) -> R {
     pinned!(CompressedUnchecked, Compress::Yes, "CompressedUnchecked");
     pinned!(UncompressedChecked, Compress::No, "UncompressedChecked");
     pinned!(UncompressedUnchecked, Compress::No, "UncompressedUnchecked");
+    // through serde, too, each wrapper uses its own compression: wrappers that pin the same compression produce the same
+    // document, wrappers that pin different compressions produce different documents exactly when the two encodings
+    // of the value differ, and a document can be read through the sibling wrapper that pins the same compression
+    {
+        let js = |r: Result<String, serde_json::Error>| r.map_err(|e| vh_core::Fail { sig: "serde.ser".into(), msg: format!("{}: serde_json::to_string failed: {}", name, e) });
+        let jcc = js(serde_json::to_string(&CompressedChecked(v.clone())))?;
+        let jcu = js(serde_json::to_string(&CompressedUnchecked(v.clone())))?;
+        let juc = js(serde_json::to_string(&UncompressedChecked(v.clone())))?;
+        let juu = js(serde_json::to_string(&UncompressedUnchecked(v.clone())))?;
+        o.class_if(bc != bu, "serde:encoding-depends-on-compression");
+        ensure!(jcc == jcu, "serde.pinned.compressed-siblings", "{}: CompressedChecked and CompressedUnchecked produce different serde documents for {}", name, short(&v));
+        ensure!(juc == juu, "serde.pinned.uncompressed-siblings", "{}: UncompressedChecked and UncompressedUnchecked produce different serde documents for {}", name, short(&v));
+        ensure!((jcc == juc) == (bc == bu), "serde.pinned.compression", "{}: compressed and uncompressed encodings {} but the serde documents of Compressed*/Uncompressed* {}; value {}", name, if bc == bu { "are equal" } else { "differ" }, if jcc == juc { "are equal" } else { "differ" }, short(&v));
+        let r = no_panic("serde_json.from_str", || serde_json::from_str::<CompressedUnchecked<T>>(&jcc))?;
+        ensure!(matches!(&r, Ok(x) if x.0 == v), "serde.pinned.cross.compressed", "{}: the document of CompressedChecked read as CompressedUnchecked gives {:?}", name, r.map(|x| short(&x)).map_err(|e| e.to_string()));
+        let r = no_panic("serde_json.from_str", || serde_json::from_str::<UncompressedChecked<T>>(&juu))?;
+        ensure!(matches!(&r, Ok(x) if x.0 == v), "serde.pinned.cross.uncompressed", "{}: the document of UncompressedUnchecked read as UncompressedChecked gives {:?}", name, r.map(|x| short(&x)).map_err(|e| e.to_string()));
+        // Deref / DerefMut / From of the wrappers
+        let mut w: UncompressedChecked<T> = v.clone().into();
+        ensure!(*w == v && *std::ops::DerefMut::deref_mut(&mut w) == v && CompressedChecked::from(v.clone()).0 == v, "pinned.deref", "{}: Deref/From of a wrapper changes the value", name);
+    }
     // the serde `with`-modules for vectors of canonical values
     let vs: Vec<T> = vec![v.clone(); g.t.idx(4)];
     macro_rules! vecmod {
@@ -337,6 +473,20 @@ fn validity<T: Hv>(name: &'static str, t: &mut Tape<'_>, o: &mut Obs) -> R {
         ensure!(r3.is_ok() == valid, "pinned.UncompressedChecked", "{}: UncompressedChecked<T>::deserialize({}, {}) ok={} for a value with valid={}", name, cname(c), vname(val), r3.is_ok(), valid);
         ensure!(matches!(&r2, Ok(x) if x.0 == v), "pinned.CompressedUnchecked", "{}: CompressedUnchecked<T>::deserialize({}, {}) must skip validation", name, cname(c), vname(val));
         ensure!(matches!(&r4, Ok(x) if x.0 == v), "pinned.UncompressedUnchecked", "{}: UncompressedUnchecked<T>::deserialize({}, {}) must skip validation", name, cname(c), vname(val));
+    }
+    // the same through serde: a document written by an ...Unchecked wrapper (writing never validates) is accepted by the
+    // ...Checked sibling exactly when the value is valid, and by the ...Unchecked wrapper always
+    {
+        let jc = serde_json::to_string(&CompressedUnchecked(v.clone())).map_err(|e| vh_core::Fail { sig: "serde.ser".into(), msg: e.to_string() })?;
+        let ju = serde_json::to_string(&UncompressedUnchecked(v.clone())).map_err(|e| vh_core::Fail { sig: "serde.ser".into(), msg: e.to_string() })?;
+        let r1 = no_panic("serde_json.from_str", || serde_json::from_str::<CompressedChecked<T>>(&jc))?;
+        let r2 = no_panic("serde_json.from_str", || serde_json::from_str::<CompressedUnchecked<T>>(&jc))?;
+        let r3 = no_panic("serde_json.from_str", || serde_json::from_str::<UncompressedChecked<T>>(&ju))?;
+        let r4 = no_panic("serde_json.from_str", || serde_json::from_str::<UncompressedUnchecked<T>>(&ju))?;
+        ensure!(r1.is_ok() == valid, "serde.validate.CompressedChecked", "{}: serde deserialization of CompressedChecked<T> ok={} for a value with valid={}: {}", name, r1.is_ok(), valid, short(&v));
+        ensure!(r3.is_ok() == valid, "serde.validate.UncompressedChecked", "{}: serde deserialization of UncompressedChecked<T> ok={} for a value with valid={}: {}", name, r3.is_ok(), valid, short(&v));
+        ensure!(matches!(&r2, Ok(x) if x.0 == v), "serde.validate.CompressedUnchecked", "{}: serde deserialization of CompressedUnchecked<T> must skip validation: {:?}", name, r2.map(|x| short(&x)).map_err(|e| e.to_string()));
+        ensure!(matches!(&r4, Ok(x) if x.0 == v), "serde.validate.UncompressedUnchecked", "{}: serde deserialization of UncompressedUnchecked<T> must skip validation: {:?}", name, r4.map(|x| short(&x)).map_err(|e| e.to_string()));
     }
     Ok(())
 }
@@ -560,6 +710,40 @@ fn rt_large(t: &mut Tape<'_>, o: &mut Obs) -> R {
         Vec<(u8, bool)>, Vec<BigInt<2>>, (Vec<u16>, String), Gs<u32>, Vec<()>)
 }
 
+/// One container whose length sits at the pre-allocation cap of `Vec` / `VecDeque` deserialization
+/// (`cautious_capacity`: at most 1 MiB / size_of::<T>() elements are reserved up front, the rest grows while reading):
+/// cap - 1, cap, cap + 1, cap + 2..3000 elements.
+fn rt_cap(t: &mut Tape<'_>, o: &mut Obs) -> R {
+    let k = t.idx(7);
+    let (d, dl): (i64, &'static str) = match t.weighted(&[2, 2, 2, 3]) {
+        0 => (-1, "len=prealloc-cap-1"),
+        1 => (0, "len=prealloc-cap"),
+        2 => (1, "len=prealloc-cap+1"),
+        _ => (2 + t.below(2999) as i64, "len>prealloc-cap+1"),
+    };
+    o.class(dl);
+    macro_rules! go {
+        ($ty:ty, $cap:expr) => {{
+            o.class(concat!("cap:", stringify!($ty)));
+            cap_rt::<$ty>(stringify!($ty), t, o, (($cap as i64) + d) as usize)
+        }};
+    }
+    match k {
+        0 => go!(Vec<u8>, 1usize << 20),
+        1 => go!(Vec<u64>, 1usize << 17),
+        2 => go!(VecDeque<u32>, 1usize << 18),
+        3 => go!(Vec<(u8, bool)>, 1usize << 19),
+        4 => go!(Vec<bool>, 1usize << 20),
+        5 => go!(String, 1usize << 20),
+        _ => go!(BigUint, 1usize << 20),
+    }
+}
+
+fn rt_slices(t: &mut Tape<'_>, o: &mut Obs) -> R {
+    dispatch!(t, slice_rt(t, o);
+        u8, u64, bool, String, (u8, bool), Option<u16>, Vec<u8>, G1, Named, Md, (), BigUint)
+}
+
 fn validity_rel(t: &mut Tape<'_>, o: &mut Obs) -> R {
     dispatch!(t, validity(t, o);
         Named, Tup, One, Gs<G1>, Option<Tup>, [One; 2], Option<G1>, (G1, u8), [G1; 3], Arc<G1>, Cow<'static, One>, Plain)
@@ -607,6 +791,8 @@ fn relations(tier: Tier) -> Vec<Rel> {
         Rel::new("roundtrip/containers-of-structs+points", q(600), 1400, rt_derive2),
         Rel::new("roundtrip/pinned-wrappers+serde_json", q(1200), 800, rt_pinned),
         Rel::new("roundtrip/large-values", q(160), 400, rt_large).shrink_iters(300),
+        Rel::new("roundtrip/len-at-prealloc-cap", q(28), 16, rt_cap).shrink_iters(20),
+        Rel::new("roundtrip/slices", q(1200), 600, rt_slices),
         Rel::new("validity/structs+points", q(1200), 700, validity_rel),
         Rel::new("validity/containers-of-structs+points", q(600), 700, validity_rel2),
         Rel::new("hostile/sequences+strings", q(2000), 500, hostile_seqs).isolated(LIMIT),
@@ -619,7 +805,7 @@ fn relations(tier: Tier) -> Vec<Rel> {
 fn main() {
     vh_core::engine::main(PropSpec {
         id: "C18",
-        rule: "A closed set of ~110 concrete Rust types (all integer widths incl. usize/isize, bool, Option, tuples of 0..5, arrays [T;0..7], Vec, VecDeque, LinkedList, String, BTreeMap, BTreeSet, BigUint, BigInt<N>, Arc, Cow, PhantomData, the four mode-pinning wrappers, and seven structs using the derive macros: named, tuple, nested-tuple, 1-tuple, unit, zero-sized and generic fields, with BLS12-381 G1 points) is picked by the tape and filled recursively from it (edge-biased integers, arbitrary Unicode scalars, empty/1/2-4/5-20-element containers under an element budget, nesting up to 4 containers, 10^4-element containers expanded from one tape word). Oracles: deserialize(serialize(v)) == v for 2 compression x 2 validation modes with unrelated trailing bytes left unread, serialized_size == bytes written, &T/&mut T/Rc/Arc/Cow write the same bytes, pinned wrappers always use their pinned mode (also through serde_json); values with G1 points outside the subgroup are rejected by check/batch_check and by deserialization exactly when validation is on; hostile bytes (every truncation, booleans > 1, non-UTF-8 bytes in strings, each length prefix replaced by n±1 / 2^32 / 2^40 / 2^61+1 / 2^62-1 / 2^63 / 2^64-1, uniform bytes, mutated encodings; positions come from an independent model of the documented format) run in a child process with a 64 MiB per-allocation guard and must give Err (or, when not certainly malformed, a value that re-serializes to the bytes read). Non-trivial: the value nests >= 2 containers or has a container of >= 2 elements; validity: additionally contains an invalid point; hostile: the attacked encoding contains at least one length prefix / target byte. distinct = distinct decoded choice sequences.",
+        rule: "A closed set of ~110 concrete Rust types (all integer widths incl. usize/isize, bool, Option, tuples of 0..5, arrays [T;0..7], Vec, VecDeque, LinkedList, String, BTreeMap, BTreeSet, BigUint, BigInt<N>, Arc, Cow, PhantomData, the four mode-pinning wrappers, and seven structs using the derive macros: named, tuple, nested-tuple, 1-tuple, unit, zero-sized and generic fields, with BLS12-381 G1 points) is picked by the tape and filled recursively from it (edge-biased integers, arbitrary Unicode scalars, empty/1/2-4/5-20-element containers under an element budget, nesting up to 4 containers, 10^4-element containers expanded from one tape word). Oracles: deserialize(serialize(v)) == v for 2 compression x 2 validation modes with unrelated trailing bytes left unread, serialized_size == bytes written, &T/&mut T/Rc/Arc/Cow write the same bytes, pinned wrappers always use their pinned mode (also through serde_json); values with G1 points outside the subgroup are rejected by check/batch_check and by deserialization exactly when validation is on; hostile bytes (every truncation, booleans > 1, non-UTF-8 bytes in strings, each length prefix replaced by n±1 / 2^32 / 2^40 / 2^61+1 / 2^62-1 / 2^63 / 2^64-1, uniform bytes, mutated encodings; positions come from an independent model of the documented format) run in a child process with a 64 MiB per-allocation guard and must give Err (or, when not certainly malformed, a value that re-serializes to the bytes read). Every round-trip case additionally serializes into a fixed &mut [u8] of exactly serialized_size bytes, into a writer that accepts only k bytes per call and reads back through a reader that delivers only k bytes per call (k: four sizes out of 1,2,3,5,7,8,9,17 from a tape word), and compares hash::<Sha256>() / hash_uncompressed::<Sha512>() with the sha2 digest of the bytes. Slices ([T] and &[T], whole vectors and sub-slices, 12 element types) must report the size they write and read back as Vec<T>. One container of cap-1, cap, cap+1, cap+2..3000 elements, cap = 2^20 / size_of::<T>() (the pre-allocation cap of Vec/VecDeque deserialization) for Vec<u8>, Vec<u64>, VecDeque<u32>, Vec<(u8,bool)>, Vec<bool>, String, BigUint is sized and round-tripped. Through serde_json the Compressed*/Uncompressed* wrappers must produce sibling-identical documents that differ between the two compressions exactly when the encodings differ, and ...Checked wrappers must reject documents of values with an invalid point while ...Unchecked accept them. Non-trivial: the value nests >= 2 containers or has a container of >= 2 elements; validity: additionally contains an invalid point; hostile: the attacked encoding contains at least one length prefix / target byte. distinct = distinct decoded choice sequences.",
         assumptions: &[
             "the encoding of a single curve point or field element is the subject of C10/C09; here points are opaque elements whose subgroup membership matters",
             "containers whose elements have an empty encoding (Vec<()>, Vec<[u8;0]>, Vec<PhantomData>) are round-tripped but never given a hostile length prefix: they would spin 2^62 iterations without reading or allocating, which the property (error instead of panic or unbounded allocation) does not speak about",
